@@ -71,6 +71,7 @@ def install(reg):
             ("class", "result._ubxClass == message[2:3]"),
             ("id", "result._ubxID == message[3:4]"),
             ("mode", f"result._mode == {PARSE_MODE}"),
+            ("view-forwarded", f"implies(not {PARSE_PAYLOAD_NONE}, result._parsebf == parsebitfield)"),
             ("payload-none", f"implies({PARSE_PAYLOAD_NONE}, result._payload is None)"),
             ("payload", f"implies(not {PARSE_PAYLOAD_NONE}, result._payload == message[6:len(message) - 2])"),
             ("length-width", "len(result._length) == 2"),
@@ -81,7 +82,10 @@ def install(reg):
         fresh_fields={"_length": ("bytesn", 2), "_checksum": ("bytesn", 2)},
         returns=lambda ex: ex.bm.new_object(__import__("pyubx2").UBXMessage),
         raises={"UBXParseError": "msgmode not in (0, 1, 2, 3) or (validate & 1 != 0 and not wf_frame(message))",
-                "UBXMessageError": None, "UBXTypeError": None},
+                # parse itself refuses nothing but malformed frames: a message / type error can only be the message
+                # constructor's verdict on (class, ID, mode, payload) - whose acceptance of every conforming payload is
+                # proved per definition
+                "UBXMessageError": "called('UBXMessage.__init__')", "UBXTypeError": "called('UBXMessage.__init__')"},
         raises_iff={"UBXParseError": "msgmode not in (0, 1, 2, 3)"},
         modifies=[]))
     reg.add(Contract(
@@ -207,6 +211,9 @@ def install_iter(reg):
                  ("item-not-empty", "not (last_read(0) is None and last_read(1) is None)")],
         raises={"StopIteration": "last_read(0) is None and last_read(1) is None"},
         modifies=[]))
+    reg.add(Contract(
+        R + "__iter__", params={"self": reader_object("file")},
+        ensures=[("iterates-itself", "result is self")], raises={}, modifies=[]))
     reg.add(Contract(
         R + "__init__",
         params={"self": lambda ex, name: ex.bm.new_object(__import__("pyubx2").UBXReader),
